@@ -443,7 +443,7 @@ func c05Lazy(c *core.Ctx, r *core.Report, l *lifecycleRoles) {
 			case "post-processor bootstrap":
 				r.Check(guardedByFailedLazyTest(c, ci.Block()), "C05.R6", cons+":lazy-guard", c.Pos(ci.Pos()), "the bootstrap creates a post-processor only under a failed LazyInit type test")
 			case "refresh":
-				c05RefreshLazy(c, r, top, ci)
+				c05RefreshLazy(c, r, top, ci, "C05.R6")
 			default:
 				r.Hold("C05.R6", cons, c.Pos(ci.Pos()), "creation trigger in the frozen table: "+what)
 			}
@@ -457,7 +457,7 @@ func c05Lazy(c *core.Ctx, r *core.Report, l *lifecycleRoles) {
 }
 
 // c05RefreshLazy: the refresh loop iterates a list whose elements were appended only under a failed LazyInit test.
-func c05RefreshLazy(c *core.Ctx, r *core.Report, refresh *ssa.Function, site ssa.CallInstruction) {
+func c05RefreshLazy(c *core.Ctx, r *core.Report, refresh *ssa.Function, site ssa.CallInstruction, rule string) {
 	cons := "trigger@" + core.FnName(refresh) + ":lazy-filter"
 	rl := core.RangeLoopOf(refresh, site.Block())
 	if rl == nil {
@@ -498,7 +498,36 @@ func c05RefreshLazy(c *core.Ctx, r *core.Report, refresh *ssa.Function, site ssa
 		}
 	}
 	walk(rl.Slice)
-	r.Check(ok && nApp >= 1, "C05.R6", cons, c.Pos(site.Pos()), fmt.Sprintf("the eager creation list is built only by appends (%d) that are dominated by a failed LazyInit type test", nApp))
+	r.Check(ok && nApp >= 1, rule, cons, c.Pos(site.Pos()), fmt.Sprintf("the eager creation list is built only by appends (%d) that are dominated by a failed LazyInit type test", nApp))
+	// completeness: nothing but the LazyInit test (and the loop over all definitions) decides whether a definition is listed
+	lazy := lazyInitType(c)
+	for v := range seen {
+		call, isCall := v.(*ssa.Call)
+		if !isCall {
+			continue
+		}
+		if bi, isB := call.Common().Value.(*ssa.Builtin); !isB || bi.Name() != "append" {
+			continue
+		}
+		bad := ""
+		for _, cd := range c.ControlDeps(call.Block()) {
+			cond := cd.If.Cond
+			if u, isU := cond.(*ssa.UnOp); isU && u.Op.String() == "!" {
+				cond = u.X
+			}
+			if ex, isEx := cond.(*ssa.Extract); isEx {
+				if ta, isTA := ex.Tuple.(*ssa.TypeAssert); isTA && types.Identical(ta.AssertedType, lazy) {
+					continue
+				}
+			}
+			if core.RangeLoopOf(refresh, cd.If.Block()) != nil && core.RangeLoopOf(refresh, cd.If.Block()).Header == cd.If.Block() {
+				continue
+			}
+			bad = "extra condition at " + c.Pos(cd.If.Cond.Pos())
+		}
+		// and the loop ranges over the unfiltered definition registry
+		r.Check(bad == "", rule, cons+":complete", c.Pos(call.Pos()), "every definition that is not LazyInit is listed for eager creation: the listing depends on nothing but the LazyInit test "+bad)
+	}
 }
 
 func c05ShortCircuit(c *core.Ctx, r *core.Report, l *lifecycleRoles) {
